@@ -17,6 +17,9 @@ def run(tier, seed):
     k = kq if tier == "quick" else kt
     r, rep = netcommon.mc_and_replay(v, wd, u, k, tier == "thorough", workers=12 if tier == "quick" else 15)
     vlib.require(rep["nontrivial"] > 20, "replay too small")
+    # redirect exceptions the optimiser may fuse (not hostname anchored, one mask, one bucket)
+    _, repx = netcommon.mc_and_replay(v, wd, "c13x", 2 if tier == "quick" else 3, False)
+    vlib.require(repx["nontrivial"] > 20, "c13x replay too small")
     v.assumptions += ["resources carry their own name as content so that the served data-URL identifies the chosen resource",
                       "third-party computed in the spec with single-label public suffixes"]
     return v.finish("model_checking", rule % k, exhaustive=True)
